@@ -51,7 +51,7 @@ FUNCTIONS_UNDER_CONTRACT = [
 CB = O.ContractedBackends(nodes=("ExtendNode", "ProjectNode"))
 MAX_GROUP = 3
 
-_FRAME_TYPE = {"num": "float", "numx": "float", "numr": "float", "int": "int", "bool": "bool", "str": "str", "str2": "str", "strdate": "str", "strdatetime": "str", "strdate2": "str", "strdatetime2": "str"}
+_FRAME_TYPE = {"num": "float", "numnan": "float", "numx": "float", "numr": "float", "int": "int", "bool": "bool", "str": "str", "str2": "str", "strdate": "str", "strdatetime": "str", "strdate2": "str", "strdatetime2": "str"}
 
 
 def scope(tier: str) -> Dict[str, Any]:
